@@ -313,6 +313,29 @@ pub fn generate(thorough: bool, rng: &mut Rng, out: &mut Vec<String>) {
         out.push(format!("vctor B {}", hex(&(0..n).map(|i| (i * 13 + 5) as u8).collect::<Vec<u8>>())));
         out.push(format!("vctor B {}", hex(&vec![b'A'; n])));
     }
+    // every length of a binary / ascii value over the sizes where encoders change strategy
+    // (stack buffers, chunked base64, 3-byte groups): all of 0..=1100 (thorough: 0..=4400) and
+    // the neighbourhood of every power of two and of 3/4 of it up to 64 KiB (seed C08j)
+    let mut lens: Vec<usize> = (0..=if thorough { 4400 } else { 1100 }).collect();
+    for sh in 10..=16u32 {
+        let p = 1usize << sh;
+        for base in [p, p / 4 * 3, p / 3 * 4] {
+            for d in 0..=6usize {
+                lens.push(base + d - 3);
+            }
+        }
+    }
+    for (i, n) in lens.into_iter().enumerate() {
+        let pat: Vec<u8> = match i % 3 {
+            0 => (0..n).map(|j| (j * 13 + 5 + i) as u8).collect(),
+            1 => vec![0xff; n],
+            _ => vec![0; n],
+        };
+        out.push(format!("vctor B {}", hex(&pat)));
+        if n % 7 == 0 || n > 1100 {
+            out.push(format!("vctor A {}", hex(&vec![b'v'; n])));
+        }
+    }
     let nv = if thorough { 60000 } else { 2000 };
     for _ in 0..nv {
         let bin = rng.chance(1, 2);
